@@ -1833,7 +1833,7 @@ def gen_measure(rng):
     return t
 
 
-THRESHOLDS = [0.8, 1.0, 1.1, 1.2, 1.2, 1.3, 1.5, 2.0, 0.5]
+THRESHOLDS = [0.8, 1.0, 1.1, 1.2, 1.2, 1.3, 1.5, 2.0, 0.5, 0.0, 0, 0.001, 1, 2]  # incl. zero (no pair is closer than 0), a tiny scale, and int spellings
 
 
 def gen_conn(rng):
